@@ -42,8 +42,10 @@ HISTOSYS == 1      \* a modifier type no pool uses
 -----------------------------------------------------------------------------
 (* pools *)
 Mod(n, t, d) == [name |-> n, type |-> t, d |-> d]
-\* signal-like sample: shared normsys 3 listed before the normfactor 1 (unsorted on purpose)
-S1(c, dv) == [name |-> 1, d |-> 100 * c + 10 + dv, mods |-> <<Mod(3, NORMSYS, 100 * c + 11), Mod(1, NORMFACTOR, 0)>>]
+\* signal-like sample: shared normsys 3 listed before the normfactor 1 (unsorted on purpose), and a
+\* second modifier of the same type (the channel's private normsys) so that a sort key matters
+S1(c, dv) == [name |-> 1, d |-> 100 * c + 10 + dv,
+              mods |-> <<Mod(3, NORMSYS, 100 * c + 11), Mod(1, NORMFACTOR, 0), Mod(10 + c, NORMSYS, 100 * c + 12)>>]
 \* background: per-channel staterror 20+c, normfactor 2, private normsys 10+c (unsorted)
 S2(c)     == [name |-> 2, d |-> 100 * c + 21, mods |-> <<Mod(20 + c, STATERROR, 100 * c + 22), Mod(2, NORMFACTOR, 0), Mod(10 + c, NORMSYS, 100 * c + 23)>>]
 S3(c)     == [name |-> 3, d |-> 100 * c + 31, mods |-> <<Mod(3, NORMSYS, 100 * c + 32), Mod(1, NORMFACTOR, 0)>>]
@@ -115,9 +117,15 @@ Prune(kind, sel) ==
   /\ Step(OpRec("prune", "", FALSE, kind, Asc(sel), <<>>, DefPrune(cur.ws, kind, sel), ImplPrune(icur.ws, kind, sel)))
 
 \* relabellings: one name to the fresh name, a swap of two existing names, a missing name
+\* every name a renaming of this kind touches: for modifiers also the parameter configs and POIs of the
+\* measurements (they may name a modifier that was pruned away)
+NameSpace(w, kind) ==
+  IF kind = "modifiers"
+  THEN ModNames(w) \cup UNION {NamesOf(m.pars) \cup {m.poi} : m \in Range(w.meas)}
+  ELSE ExistingOf(w, kind)
 RenameMaps(w, kind) ==
   LET ex == ExistingOf(w, kind) IN
-  (IF Fresh \in ex THEN {} ELSE {<< <<a, Fresh>> >> : a \in ex \cup {Missing}})
+  (IF Fresh \in NameSpace(w, kind) THEN {} ELSE {<< <<a, Fresh>> >> : a \in ex \cup {Missing}})
   \cup (IF SwapRenames THEN UNION {{<< <<a, b>>, <<b, a>> >> : b \in {x \in ex : x > a /\ x < a + 3}} : a \in ex} ELSE {})
 Rename(kind, pairs) ==
   /\ CanStep /\ deep
@@ -223,7 +231,7 @@ PruneRefusesMissing ==
 \* "Rename then inverse Rename = identity (POI follows)"; both layers
 Injective(pairs, w, kind) ==
   /\ \A i \in DOMAIN pairs : \A j \in DOMAIN pairs : pairs[i][2] = pairs[j][2] => i = j
-  /\ \A i \in DOMAIN pairs : pairs[i][2] \in ExistingOf(w, kind) => \E j \in DOMAIN pairs : pairs[j][1] = pairs[i][2]
+  /\ \A i \in DOMAIN pairs : pairs[i][2] \in NameSpace(w, kind) => \E j \in DOMAIN pairs : pairs[j][1] = pairs[i][2]
 RenameInverse ==
   OkOp("rename") =>
     /\ Injective(Last.pairs, Pre, Last.kind)
